@@ -115,7 +115,7 @@ pub fn gen_c01(rng: &mut Rng, caseid: u64, unix: bool, bound_ms: u64) -> (ConvCa
     let mut sched = gen_sched(rng, n, true);
     // rarely: one early request is answered only after more than five seconds while the later
     // ones are answered at once (their writers wait for their turn all that time)
-    let long_hold = rng.chance(1, 250);
+    let long_hold = rng.chance(1, 1500);
     let mut bound_ms = bound_ms;
     if long_hold {
         let who = rng.below(n - 1);
